@@ -203,6 +203,12 @@ def main(argv=None):
             # a listed finding that the workload no longer reproduces is reported, never silently dropped
             print("NOTE: known finding %s was not reproduced in this run" % k["id"])
 
+    dump = os.environ.get("VERIF_DUMP")
+    if dump:
+        with open(dump, "w") as fh:
+            for c, v in viols:
+                fh.write(json.dumps({"case": {k: w for k, w in c.items() if k not in ("mesh",)}, "v": v,
+                                     "known": known_mod.classify(prop, c, v, known)}) + "\n")
     rdir = os.path.join(HERE, "replays", prop)
     seen = set()
     nlines = 0
